@@ -14,6 +14,8 @@ mod driver;
 mod hashseed;
 mod oracle;
 #[cfg(feature = "sim")]
+mod miri_tier;
+#[cfg(feature = "sim")]
 mod pfamily;
 mod plan;
 mod props;
@@ -43,6 +45,8 @@ fn main() {
         "worker" => driver::cmd_worker(&args[2..]),
         "eval" => driver::cmd_eval(&args[2], false),
         "replay" => driver::cmd_eval(&args[2], true),
+        #[cfg(feature = "sim")]
+        "miri" => miri_tier::cmd_miri(&args[2], args[3].parse().unwrap(), args[4].parse().unwrap()),
         "xdigest" => driver::cmd_xdigest(&args[2], args[3].parse().unwrap(), args[4].parse().unwrap()),
         _ => {
             eprintln!("unknown subcommand");
